@@ -533,6 +533,7 @@ class _RT:
 
 RT = _RT()
 _TEMPLATE = {}
+TEMPLATE_BASE = None
 
 
 def quiet():
@@ -543,8 +544,12 @@ def template_db():
     if "path" not in _TEMPLATE:
         from redun import Scheduler
         from redun.config import Config
-        d = tempfile.mkdtemp(prefix="rv_c02tmpl_")
-        p = os.path.join(d, "t.db")
+        if TEMPLATE_BASE:          # a directory owned (and removed) by the parent process
+            d = None
+            p = os.path.join(TEMPLATE_BASE, f"t_{os.getpid()}.db")
+        else:
+            d = tempfile.mkdtemp(prefix="rv_c02tmpl_")
+            p = os.path.join(d, "t.db")
         s = Scheduler(config=Config({"backend": {"db_uri": f"sqlite:///{p}"}}))
         s.logger.disabled = True
         s.load()
@@ -554,9 +559,9 @@ def template_db():
 
 
 def cleanup_template():
-    if "dir" in _TEMPLATE:
+    if _TEMPLATE.get("dir"):
         shutil.rmtree(_TEMPLATE["dir"], ignore_errors=True)
-        _TEMPLATE.clear()
+    _TEMPLATE.clear()
 
 
 def close_sched(s):
